@@ -151,6 +151,21 @@ func (s *nnrfService) RegisterNFInstance(ctx context.Context) (
 		}
 		nf = res.NrfNfManagementNfProfile
 
+		// what the NRF declares about OAuth2 holds whichever way it answers: 201 Created for a new profile,
+		// 200 OK when it replaces a profile it already holds for this instance id
+		oauth2 := false
+		if nf.CustomInfo != nil {
+			v, ok := nf.CustomInfo["oauth2"].(bool)
+			if ok {
+				oauth2 = v
+				logger.MainLog.Infoln("OAuth2 setting receive from NRF:", oauth2)
+			}
+		}
+		chf_context.GetSelf().OAuth2Required = oauth2
+		if oauth2 && chf_context.GetSelf().NrfCertPem == "" {
+			logger.CfgLog.Error("OAuth2 enable but no nrfCertPem provided in config.")
+		}
+
 		// http.StatusOK
 		if res.Location == "" {
 			// NFUpdate
@@ -160,19 +175,6 @@ func (s *nnrfService) RegisterNFInstance(ctx context.Context) (
 			resourceUri := res.Location
 			resouceNrfUri = resourceUri[:strings.Index(resourceUri, "/nnrf-nfm/")]
 			retrieveNfInstanceID = resourceUri[strings.LastIndex(resourceUri, "/")+1:]
-
-			oauth2 := false
-			if nf.CustomInfo != nil {
-				v, ok := nf.CustomInfo["oauth2"].(bool)
-				if ok {
-					oauth2 = v
-					logger.MainLog.Infoln("OAuth2 setting receive from NRF:", oauth2)
-				}
-			}
-			chf_context.GetSelf().OAuth2Required = oauth2
-			if oauth2 && chf_context.GetSelf().NrfCertPem == "" {
-				logger.CfgLog.Error("OAuth2 enable but no nrfCertPem provided in config.")
-			}
 
 			break
 		}
